@@ -34,7 +34,12 @@ MANIFEST = {
             'text value against the truncation law; (stage) every '
             'combination fmt x C-format x modifier x size equals the '
             'composition of the single-stage renderings; (null) null=/'
-            'missing= replace exactly null/undefined values and are final.',
+            'missing= replace exactly null/undefined values and are final; '
+            '(commas) thousands_commas on 23 digit-bearing texts (leading '
+            'zeros, non-ASCII digits, signs, several points) only inserts '
+            'separators, groups of three from the right, and equal numbers '
+            'of different types (1000, 1000.0, Decimal, True/1/1.0) '
+            'rendered one after the other each print their own text.',
     'note': 'Trusted: the closed forms in this driver (Python str methods, '
             'format(n, ","), urllib round trip as identity, the truncation '
             'rule as stated).  The inner order of several modifiers is not '
